@@ -88,15 +88,21 @@ func ownSpan(cfg chanobs.Config) (uint32, uint32) {
 	return lo, hi
 }
 
-// history runs one history on the implementation and records the CHist case
-// plus the cross-layer cases of the values the band now produces.
-func (g *gen) history(tag string, cfg chanobs.Config, ops []chanobs.Op) {
+// snap is one complete observation of a band instance (every accessor).
+type snap struct {
+	obs      string
+	probes   []string
+	probeTxt []string
+	n        int
+	upc      []chanobs.Chan
+	downs    []chanobs.Chan
+	cfl      []*lorawan.CFList
+	enabled  []int
+}
+
+// snapshot reads every accessor of b.
+func (g *gen) snapshot(cfg chanobs.Config, b band.Band, ops []chanobs.Op) snap {
 	r := g.r
-	b, kinds := chanobs.Replay(cfg, ops)
-	steps := make([]string, len(ops))
-	for i, o := range ops {
-		steps[i] = cq.Tuple(o.Coq(), chanobs.Out(kinds[i], "tt"))
-	}
 	all := b.GetUplinkChannelIndices()
 	n := len(all)
 	var ups []string
@@ -121,8 +127,9 @@ func (g *gen) history(tag string, cfg chanobs.Config, ops []chanobs.Op) {
 		cfl[i] = cf
 		cfs = append(cfs, optCoq(cflistCoq(cf)))
 	}
+	enabled := b.GetEnabledUplinkChannelIndices()
 	obs := fmt.Sprintf("(mkObs %s %s %s %s %s %s %s %s)", cq.Ints(all), cq.Ints(b.GetStandardUplinkChannelIndices()),
-		cq.Ints(b.GetCustomUplinkChannelIndices()), cq.Ints(b.GetEnabledUplinkChannelIndices()), cq.Ints(b.GetDisabledUplinkChannelIndices()),
+		cq.Ints(b.GetCustomUplinkChannelIndices()), cq.Ints(enabled), cq.Ints(b.GetDisabledUplinkChannelIndices()),
 		cq.List(ups), chanobs.ChanList(downs), cq.List(cfs))
 
 	// probes: indices (valid, boundary, negative, huge), lookups by frequency and by frequency + DR
@@ -130,16 +137,11 @@ func (g *gen) history(tag string, cfg chanobs.Config, ops []chanobs.Op) {
 	var probeTxt []string
 	idxs := []int{-1, n, n - 1, 0, len(downs), len(downs) - 1, chanobs.WeirdInts[r.Intn(len(chanobs.WeirdInts))], chanobs.RandIndex(r, n), chanobs.RandIndex(r, n)}
 	for _, i := range idxs {
-		k, c := chanobs.UplinkChannel(b, i)
-		probes = append(probes, fmt.Sprintf("PUp %s %s", cq.Z(int64(i)), chanOut(k, c)))
-		probeTxt = append(probeTxt, fmt.Sprintf("GetUplinkChannel(%d) -> %s", i, chanobs.KindName(k)))
-		k, c = chanobs.DownlinkChannel(b, i)
-		probes = append(probes, fmt.Sprintf("PDown %s %s", cq.Z(int64(i)), chanOut(k, c)))
-		probeTxt = append(probeTxt, fmt.Sprintf("GetDownlinkChannel(%d) -> %s", i, chanobs.KindName(k)))
-		var v int
-		k = chanobs.Call(func() error { var err error; v, err = b.GetTXPowerOffset(i); return err })
-		probes = append(probes, fmt.Sprintf("PTxp %s %s", cq.Z(int64(i)), chanobs.Out(k, cq.Z(int64(v)))))
-		probeTxt = append(probeTxt, fmt.Sprintf("GetTXPowerOffset(%d) -> %s", i, chanobs.KindName(k)))
+		for kind := 0; kind < 3; kind++ {
+			c, t := probeIndex(b, kind, i)
+			probes = append(probes, c)
+			probeTxt = append(probeTxt, t)
+		}
 	}
 	for j := 0; j < 8; j++ {
 		var f uint32
@@ -149,15 +151,56 @@ func (g *gen) history(tag string, cfg chanobs.Config, ops []chanobs.Op) {
 			f = chanobs.RandFreq(r, upc)
 		}
 		d := r.Bool()
-		var i int
-		k := chanobs.Call(func() error { var err error; i, err = b.GetUplinkChannelIndex(f, d); return err })
-		probes = append(probes, fmt.Sprintf("PIdx %s %s %s", cq.Z(int64(f)), cq.Bool(d), chanobs.Out(k, cq.Z(int64(i)))))
-		probeTxt = append(probeTxt, fmt.Sprintf("GetUplinkChannelIndex(%d,%v) -> %s %d", f, d, chanobs.KindName(k), i))
+		c, t := probeLookup(b, f, d)
+		probes = append(probes, c)
+		probeTxt = append(probeTxt, t)
 		dr := []int{0, 3, 5, 6, 7, -1, 15, 100}[r.Intn(8)]
-		k = chanobs.Call(func() error { var err error; i, err = b.GetUplinkChannelIndexForFrequencyDR(f, dr); return err })
-		probes = append(probes, fmt.Sprintf("PIdxDR %s %s %s", cq.Z(int64(f)), cq.Z(int64(dr)), chanobs.Out(k, cq.Z(int64(i)))))
-		probeTxt = append(probeTxt, fmt.Sprintf("GetUplinkChannelIndexForFrequencyDR(%d,%d) -> %s %d", f, dr, chanobs.KindName(k), i))
+		c, t = probeLookupDR(b, f, dr)
+		probes = append(probes, c)
+		probeTxt = append(probeTxt, t)
 	}
+	return snap{obs: obs, probes: probes, probeTxt: probeTxt, n: n, upc: upc, downs: downs, cfl: cfl, enabled: enabled}
+}
+
+// probeIndex: kind 0 GetUplinkChannel, 1 GetDownlinkChannel, 2 GetTXPowerOffset at index i.
+func probeIndex(b band.Band, kind, i int) (string, string) {
+	switch kind {
+	case 0:
+		k, c := chanobs.UplinkChannel(b, i)
+		return fmt.Sprintf("PUp %s %s", cq.Z(int64(i)), chanOut(k, c)), fmt.Sprintf("GetUplinkChannel(%d) -> %s", i, chanobs.KindName(k))
+	case 1:
+		k, c := chanobs.DownlinkChannel(b, i)
+		return fmt.Sprintf("PDown %s %s", cq.Z(int64(i)), chanOut(k, c)), fmt.Sprintf("GetDownlinkChannel(%d) -> %s", i, chanobs.KindName(k))
+	}
+	var v int
+	k := chanobs.Call(func() error { var err error; v, err = b.GetTXPowerOffset(i); return err })
+	return fmt.Sprintf("PTxp %s %s", cq.Z(int64(i)), chanobs.Out(k, cq.Z(int64(v)))), fmt.Sprintf("GetTXPowerOffset(%d) -> %s", i, chanobs.KindName(k))
+}
+
+func probeLookup(b band.Band, f uint32, d bool) (string, string) {
+	var i int
+	k := chanobs.Call(func() error { var err error; i, err = b.GetUplinkChannelIndex(f, d); return err })
+	return fmt.Sprintf("PIdx %s %s %s", cq.Z(int64(f)), cq.Bool(d), chanobs.Out(k, cq.Z(int64(i)))),
+		fmt.Sprintf("GetUplinkChannelIndex(%d,%v) -> %s %d", f, d, chanobs.KindName(k), i)
+}
+
+func probeLookupDR(b band.Band, f uint32, dr int) (string, string) {
+	var i int
+	k := chanobs.Call(func() error { var err error; i, err = b.GetUplinkChannelIndexForFrequencyDR(f, dr); return err })
+	return fmt.Sprintf("PIdxDR %s %s %s", cq.Z(int64(f)), cq.Z(int64(dr)), chanobs.Out(k, cq.Z(int64(i)))),
+		fmt.Sprintf("GetUplinkChannelIndexForFrequencyDR(%d,%d) -> %s %d", f, dr, chanobs.KindName(k), i)
+}
+
+// history runs one history on the implementation and records the CHist case
+// plus the cross-layer cases of the values the band now produces.
+func (g *gen) history(tag string, cfg chanobs.Config, ops []chanobs.Op) {
+	b, kinds := chanobs.Replay(cfg, ops)
+	steps := make([]string, len(ops))
+	for i, o := range ops {
+		steps[i] = cq.Tuple(o.Coq(), chanobs.Out(kinds[i], "tt"))
+	}
+	sn := g.snapshot(cfg, b, ops)
+	n, probes, probeTxt := sn.n, sn.probes, sn.probeTxt
 	worst := chanobs.KOk
 	for _, k := range kinds {
 		if k > worst {
@@ -165,21 +208,27 @@ func (g *gen) history(tag string, cfg chanobs.Config, ops []chanobs.Op) {
 		}
 	}
 	g.s.Add(cases.Case{
-		Term: fmt.Sprintf("CHist %d%%nat %s %s %s", cfg.Index, cq.List(steps), obs, cq.List(probes)),
+		Term: fmt.Sprintf("CHist %d%%nat %s %s %s", cfg.Index, cq.List(steps), sn.obs, cq.List(probes)),
 		Key:  fmt.Sprintf("hist:%s:%s:%s", cfg.String(), tag, chanobs.Hash(chanobs.OpsCoq(ops), probes)),
 		Kind: "history-" + tag, Nontrivial: len(ops) > 0,
 		Replay: map[string]interface{}{"api": "AddChannel/Disable/Enable + accessors", "band": cfg.String(), "history": chanobs.OpsStrings(ops),
 			"call_outcomes": kindNames(kinds), "probes": probeTxt, "channels": n}})
 
-	// ---- band outputs through the MAC-layer encoders ------------------------
+	g.crossLayer(cfg, b, ops, sn)
+}
+
+// crossLayer pushes every frequency / DR / CFList the band produces in its
+// current state through the MAC-layer encoders and decoders.
+func (g *gen) crossLayer(cfg chanobs.Config, b band.Band, ops []chanobs.Op, sn snap) {
+	r := g.r
 	name := string(cfg.Name)
 	g.lo, g.hi = ownSpan(cfg)
-	for i, c := range upc {
+	for i, c := range sn.upc {
 		if c.MinDR >= 0 && c.MinDR <= 255 && c.MaxDR >= 0 && c.MaxDR <= 255 {
 			g.newChannel(name, uint8(i), c)
 		}
 	}
-	for i, c := range downs {
+	for i, c := range sn.downs {
 		g.dlChannel(name, uint8(i), c)
 	}
 	d := b.GetDefaults()
@@ -193,9 +242,9 @@ func (g *gen) history(tag string, cfg chanobs.Config, ops []chanobs.Op) {
 		g.pingSlot(name, pf, d.RX2DataRate)
 		g.beacon(name, pf)
 	}
-	for i, cf := range cfl {
+	for i, cf := range sn.cfl {
 		if cf != nil {
-			g.cflist(cfg, versions[i], ops, cf)
+			g.cflist(cfg, versions[i], ops, cf, sn.enabled)
 		}
 	}
 }
@@ -296,7 +345,14 @@ func (g *gen) beacon(bandName string, f uint32) {
 // cflist: CFList.MarshalBinary / UnmarshalBinary, and the same CFList inside a
 // JoinAcceptPayload (checked here: the join-accept carries exactly the CFList
 // bytes and decodes to the same CFList as the stand-alone decoder).
-func (g *gen) cflist(cfg chanobs.Config, version string, ops []chanobs.Op, cf *lorawan.CFList) {
+//
+// For a channel-mask CFList two more requirements are checked here on the Go
+// side, both insensitive to the recorded finding C15-3 (a TRAILING all-zero
+// mask is dropped by the decoder): the channels named by the masks decoded
+// from the join-accept are exactly the band's enabled channels, and the
+// decoded masks are the encoded masks minus trailing all-zero masks (so a
+// mask lost or moved anywhere else is reported under its own key).
+func (g *gen) cflist(cfg chanobs.Config, version string, ops []chanobs.Op, cf *lorawan.CFList, enabled []int) {
 	term := cflistCoq(cf)
 	shape := "channels"
 	if cp, ok := cf.Payload.(*lorawan.CFListChannelPayload); ok {
@@ -336,10 +392,133 @@ func (g *gen) cflist(cfg chanobs.Config, version string, ops []chanobs.Op, cf *l
 			var jback lorawan.JoinAcceptPayload
 			if uerr := jback.UnmarshalBinary(false, jb); uerr != nil || jback.CFList == nil || !reflect.DeepEqual(*jback.CFList, back) {
 				g.s.Fail(cases.GoFail{Key: "joinaccept:" + key, What: "JoinAcceptPayload decodes the CFList differently from CFList.UnmarshalBinary", Replay: rp})
+			} else if mp, ok := cf.Payload.(*lorawan.CFListChannelMaskPayload); ok {
+				dp, dok := jback.CFList.Payload.(*lorawan.CFListChannelMaskPayload)
+				var got []lorawan.ChMask
+				if dok {
+					got = dp.ChannelMasks
+				}
+				want := mp.ChannelMasks
+				for len(want) > 0 && want[len(want)-1] == (lorawan.ChMask{}) {
+					want = want[:len(want)-1]
+				}
+				rp2 := map[string]interface{}{"api": rp["api"], "band": rp["band"], "history": rp["history"], "version": version, "cflist": term,
+					"enabled_channels": enabled, "encoded_masks": maskHex(mp.ChannelMasks), "decoded_masks": maskHex(got), "channels_of_decoded_masks": maskIndices(got)}
+				if !dok || !reflect.DeepEqual(maskIndices(got), append([]int{}, enabled...)) {
+					g.s.Fail(cases.GoFail{Key: fmt.Sprintf("joinaccept-enabled:%s:%s", cfg.Name, chanobs.Hash(term)),
+						What: "the channel-mask CFList decoded from the join-accept does not name the band's enabled channels", Replay: rp2})
+				}
+				if !dok || len(got) != len(want) || (len(want) > 0 && !reflect.DeepEqual(got, want)) {
+					g.s.Fail(cases.GoFail{Key: fmt.Sprintf("joinaccept-masks:%s:non-trailing-mask-lost:%s", cfg.Name, chanobs.Hash(term)),
+						What: "the channel masks decoded from the join-accept differ from the encoded masks in more than trailing all-zero masks", Replay: rp2})
+				}
 			}
 		}
 	}
 	g.s.Add(cases.Case{Term: fmt.Sprintf("CCFList %s %s %s %s %s", term, cq.Z(int64(g.lo)), cq.Z(int64(g.hi)), oe, od), Key: key, Kind: "cflist-" + strings.Split(shape, ":")[0], Nontrivial: true, Replay: rp})
+}
+
+type blockPattern struct {
+	tag string
+	ops []chanobs.Op
+}
+
+// blockPatterns: histories for a fixed channel plan of n channels that switch
+// whole 16-channel blocks off (and a few single channels back on), so that the
+// channel-mask CFList contains all-zero masks at every position: leading,
+// runs of 2-4 adjacent ones between non-zero masks, alternating, trailing, all.
+func blockPatterns(r *cq.RNG, n int, thorough bool) []blockPattern {
+	nb := (n + 15) / 16
+	offBlocks := func(blocks []bool, back []int) []chanobs.Op {
+		var ops []chanobs.Op
+		for i := 0; i < n; i++ {
+			if blocks[i/16] {
+				ops = append(ops, chanobs.Disable(i))
+			}
+		}
+		for _, i := range back {
+			ops = append(ops, chanobs.Enable(i))
+		}
+		return ops
+	}
+	mk := func(f func(k int) bool) []bool {
+		b := make([]bool, nb)
+		for k := range b {
+			b[k] = f(k)
+		}
+		return b
+	}
+	var out []blockPattern
+	add := func(tag string, blocks []bool, back ...int) {
+		out = append(out, blockPattern{tag, offBlocks(blocks, back)})
+	}
+	add("all-off", mk(func(int) bool { return true }))
+	add("all-off-but-first-and-last-channel", mk(func(int) bool { return true }), 0, n-1)
+	add("even-off", mk(func(k int) bool { return k%2 == 0 }))
+	add("odd-off", mk(func(k int) bool { return k%2 == 1 }))
+	add("only-last-block-on", mk(func(k int) bool { return k != nb-1 }))
+	for k := 0; k < nb; k++ {
+		add(fmt.Sprintf("only-block-%d-on", k), mk(func(j int) bool { return j != k }))
+	}
+	for l := 2; l <= 4; l++ {
+		for s := 0; s+l < nb; s++ {
+			s, l := s, l
+			add(fmt.Sprintf("run-of-%d-off-from-%d", l, s), mk(func(j int) bool { return j >= s && j < s+l }))
+		}
+	}
+	// sub-bands: 8 channels of one block plus one channel of the last block
+	for j := 0; j < 2; j++ {
+		sb := r.Intn((n - n%16) / 8)
+		if n%16 == 0 {
+			sb = r.Intn(n/8 - 2)
+		}
+		var back []int
+		for i := sb * 8; i < sb*8+8; i++ {
+			back = append(back, i)
+		}
+		back = append(back, (nb-1)*16+r.Intn(n-(nb-1)*16))
+		add(fmt.Sprintf("sub-band-%d", sb), mk(func(int) bool { return true }), back...)
+	}
+	reps := 3
+	if thorough {
+		reps = 60
+	}
+	for j := 0; j < reps; j++ {
+		blocks := mk(func(int) bool { return r.Intn(3) != 0 })
+		var back []int
+		for k := r.Intn(4); k > 0; k-- {
+			back = append(back, r.Intn(n))
+		}
+		add("random-blocks", blocks, back...)
+	}
+	return out
+}
+
+func maskHex(ms []lorawan.ChMask) []string {
+	out := make([]string, len(ms))
+	for i, m := range ms {
+		v := 0
+		for j, on := range m {
+			if on {
+				v |= 1 << uint(j)
+			}
+		}
+		out[i] = fmt.Sprintf("%04x", v)
+	}
+	return out
+}
+
+// maskIndices: the channel indices named by a list of 16-channel masks.
+func maskIndices(ms []lorawan.ChMask) []int {
+	out := []int{}
+	for i, m := range ms {
+		for j, on := range m {
+			if on {
+				out = append(out, i*16+j)
+			}
+		}
+	}
+	return out
 }
 
 func main() {
@@ -378,6 +557,73 @@ func main() {
 	if thorough {
 		rounds = 300
 	}
+	// The generators added later draw from their own stream, so the cases of the
+	// older generators (below) stay the same for a given seed.
+	r0 := r
+	r = cq.NewRNG(seed ^ 0x5eed15c15)
+	g.r = r
+
+	// corpus of minimized past failures (seeded-defect trials, notes/C15.md):
+	// (a) an accessor that remembers its answer across AddChannel: read - AddChannel - read
+	for _, kind := range []int{obEnabled, obPlan} {
+		t := g.newTracer(byName(band.EU868))
+		t.observe(kind)
+		t.op(chanobs.Add(867100000, 0, 5))
+		t.observe(obLists)
+		t.observe(kind)
+		t.finish("corpus-read-add-read/"+obName[kind], true)
+	}
+	// (b) US915 sub-band 2 (channels 8-15 and 65): masks ff00 0000 0000 0000 0002, a run of
+	// all-zero masks in front of a non-zero one, through the join-accept
+	{
+		var ops []chanobs.Op
+		for i := 0; i < 72; i++ {
+			ops = append(ops, chanobs.Disable(i))
+		}
+		for _, i := range []int{8, 9, 10, 11, 12, 13, 14, 15, 65} {
+			ops = append(ops, chanobs.Enable(i))
+		}
+		g.history("corpus-subband2", byName(band.US915), ops)
+	}
+
+	// ---- channel-mask bands: whole 16-channel blocks disabled ---------------
+	for _, name := range []band.Name{band.US915, band.AU915, band.CN470} {
+		base := byName(name).Index
+		for _, bp := range blockPatterns(r, len(cfgs[base].New().GetUplinkChannelIndices()), thorough) {
+			g.history("blocks-"+bp.tag, cfgs[base+r.Intn(4)], bp.ops)
+		}
+	}
+
+	// ---- observation - call - observation, every accessor x every call -------
+	for _, name := range chanobs.Names {
+		base := byName(name).Index
+		reps := 1
+		if thorough {
+			reps = 12
+		}
+		for rep := 0; rep < reps; rep++ {
+			for kind := 0; kind < obSnap; kind++ {
+				g.sandwich(cfgs[base+r.Intn(4)], kind, 0, r.Intn(3)*rep)
+				for opKind := 1; opKind <= 2; opKind++ {
+					if thorough || r.Intn(3) == 0 {
+						g.sandwich(cfgs[base+r.Intn(4)], kind, opKind, 1+r.Intn(4))
+					}
+				}
+			}
+		}
+	}
+
+	for round := 0; round < rounds; round++ {
+		for _, name := range chanobs.Names {
+			if thorough || round%2 == 0 {
+				g.randomTrace(cfgs[byName(name).Index+r.Intn(4)], []int{8, 24}[round%4/2])
+			}
+		}
+	}
+
+	// ---- histories observed at the end (fresh instance per history) ---------
+	r = r0
+	g.r = r
 	for round := 0; round < rounds; round++ {
 		for _, name := range chanobs.Names {
 			cfg := cfgs[byName(name).Index+r.Intn(4)]
